@@ -7,6 +7,9 @@ R01d  a fresh ACKNACK updates acked/requested sets and triggers repair; every re
       unsent change is answered (DATA, DATA_FRAG or GAP) and highest_sent advances
 R01e  a fresh HEARTBEAT updates missing/lost sets and answers with ACKNACK in both reader loops
 R01f  repair and first-send DATA respect first_relevant_sample_seq_num (shared with C04)
+R01h  every GAP the writer side builds announces a non-empty range that contains its start (shared with C03 R03g)
+R05g  a fragment is buffered at most once (shared with C05)
+R05a  fragment index base and bound tests of the NACK_FRAG repair path (shared with C05): the last fragment can be re-requested
 """
 from rules import rtps_core as R
 from rules.common import adder
@@ -40,7 +43,17 @@ def run(ctx, rep):
         rep.floor("R01e-" + k.split("::")[-1], v, 2, "calls to %s in handle_heartbeat_submessage" % k)
     ng = R.periodic_heartbeat_solicits_ack(fx, rep, "R01g")
     rep.floor("R01g", ng, 3, "periodic heartbeat + reader must_send_acknacks sites")
-    from rules.c05 import reassembly_order
+    ngap = R.gap_ranges_nonempty(fx, rep, "R01h")
+    rep.floor("R01h", ngap, 6, "GAP constructions on the writer side")
+    from rules.c05 import reassembly_order, no_duplicate_fragments
+    ndup = no_duplicate_fragments(fx, rep)
+    rep.floor("R05g", ndup, 1, "pushes into RtpsWriterProxy::frag_buffer")
+    # a NACK_FRAG repair must be able to name every fragment, the last one included (index base + bound tests, shared with C05)
+    from rules.c05 import callee_convention, callers
+    want, pidx, cb = callee_convention(fx)
+    if want in ("B0", "B1"):
+        nfr = callers(fx, rep, want, pidx)
+        rep.floor("R05a", nfr, 4, "call sites of as_data_frag_submessage")
     nr = reassembly_order(fx, rep)
     rep.floor("R05e", nr, 1, "payload appends in reconstruct_data_from_frag")
     n6 = R.sends_guarded_by_first_relevant(fx, b4, adder(rep, b4), "R01f")
